@@ -2,10 +2,14 @@
 C18 — PROPERTY THEOREMS.  "Coroutine primitives: FIFO delivery, mutual exclusion, no lost wake-ups."
 
 Every theorem quantifies over EVERY execution `run init ops` of the model of the repaired code
-(patches/C18-01..04): any number of script definitions and routines, any scripts over
+(patches/C18-01..05): any number of script definitions and routines, any scripts over
 yield / wait / send / recv / lock / unlock / acquire / release / post / waitBroadcast /
-condition add·wait·post / join / create / cancel / exit, and any sequence of main-context
-operations (new / resume / cancel / cleanup / pass), each followed by one loop pass.
+condition add·wait·post / join / create / cancel / exit / throw / cleanup-inside-a-routine, and any
+sequence of main-context operations (new / resume / cancel / cleanup / pass / a primitive or scheduler
+member CALLED FROM THE MAIN CONTEXT, round 4), each followed by one loop pass.  A call that ends the
+process (failed TBOX_ASSERT, std::terminate) sets `aborted`; `step` is the identity from then on.
+The progress form of no-lost-wake-up is in Progress.lean (`C18_progress`), the C++ width of the
+semaphore count in SemWidth.lean (`C18_semw_*`, patches/C18-06..07).
 The counterexample theorems are about `run initOrig …`, the model of the code as found.
 -/
 import TboxModel.C18.Trace
@@ -254,5 +258,108 @@ example : susp (run init [.define false [.wait], .define false [.join 0], .new 0
 /-- cancelled + blocked: hypotheses of `C18_cancel_fails` -/
 example : let s := applyMain (run init (cexChannel.take 5)) (.cancel 0)
     (s.R 0).canceled = true ∧ (s.R 0).inOp = true := by decide
+
+
+/-! ### round 4: calls from the main context, aborts (failed TBOX_ASSERT / std::terminate) -/
+
+@[simp] theorem makeReady_aborted (s : State) (t) : (makeReady s t).1.aborted = s.aborted := by
+  unfold makeReady; split <;> rfl
+@[simp] theorem resume_aborted (s : State) (t) : (resume s t).1.aborted = s.aborted := by
+  unfold resume; split <;> simp
+@[simp] theorem wakeAll_aborted (s : State) (ts) : (wakeAll s ts).aborted = s.aborted := by
+  induction ts generalizing s with
+  | nil => rfl
+  | cons t ts ih => simp [wakeAll, ih]
+@[simp] theorem tag_aborted (s : State) (t) : (tag s t).aborted = s.aborted := rfl
+@[simp] theorem tagIf_aborted (s : State) (b t) : (tagIf s b t).aborted = s.aborted := by
+  unfold tagIf; split <;> rfl
+@[simp] theorem wake_aborted (s : State) (ts e) : (wake s ts e).1.aborted = s.aborted := by
+  unfold wake
+  simp only []
+  split
+  · simp
+  · split
+    · split <;> simp
+    · simp
+@[simp] theorem resumeOpt_aborted (s : State) (t) : (resumeOpt s t).aborted = s.aborted := by
+  cases t <;> simp [resumeOpt]
+@[simp] theorem cancelR_aborted (s : State) (t) : (cancelR s t).1.aborted = s.aborted := by
+  unfold cancelR; split <;> simp [State.setR]
+@[simp] theorem create_aborted (s : State) (d now) : (create s d now).aborted = s.aborted := by
+  unfold create; split <;> simp [createCore]
+@[simp] theorem setR_aborted (s : State) (r x) : (s.setR r x).aborted = s.aborted := rfl
+@[simp] theorem setCh_aborted (s : State) (r x) : (s.setCh r x).aborted = s.aborted := rfl
+@[simp] theorem setMx_aborted (s : State) (r x) : (s.setMx r x).aborted = s.aborted := rfl
+@[simp] theorem setSm_aborted (s : State) (r x) : (s.setSm r x).aborted = s.aborted := rfl
+@[simp] theorem setBc_aborted (s : State) (r x) : (s.setBc r x).aborted = s.aborted := rfl
+@[simp] theorem setCd_aborted (s : State) (r x) : (s.setCd r x).aborted = s.aborted := rfl
+@[simp] theorem finish_aborted (s : State) (me op rest res) : (finish s me op rest res).1.aborted = s.aborted := rfl
+@[simp] theorem blockIn_aborted (s : State) (me op rest) : (blockIn s me op rest).1.aborted = s.aborted := rfl
+@[simp] theorem waitBlock_aborted (s : State) (me op rest) : (waitBlock s me op rest).1.aborted = s.aborted := by
+  unfold waitBlock; split <;> simp
+@[simp] theorem logMain_aborted (s : State) (op res) : (logMain s op res).aborted = s.aborted := rfl
+@[simp] theorem abort_aborted (s : State) : (abort s).aborted = true := by
+  unfold abort; split <;> simp_all
+
+/-- **the routine-side interface is total**: inside a routine no member of the scheduler or of a
+primitive ever aborts, in any state and for any argument (unknown / stale / own token, free or held
+mutex, empty condition …) — except an exception that leaves the routine body and
+`Scheduler::cleanup()`, which is reserved for the main context; those two always do. -/
+theorem C18_routine_calls_never_abort (s : State) (me : Nat) (op : Op) (rest : List Op) :
+    (execOp s me op rest).1.aborted = (s.aborted || decide (op = .throw ∨ op = .rcleanup)) := by
+  cases op <;> simp only [execOp] <;> repeat' split
+  all_goals simp
+
+/-- which calls made from the MAIN context abort (decidable in the state): everything that reaches
+`Scheduler::getToken/wait/yield/join` — the members reserved for routines start with
+`TBOX_ASSERT(!isInMainRoutine())` — i.e. every call except send / release / post / Condition::add /
+Condition::post, `>>` on a non-empty channel, `acquire` on a positive count and a refused `Condition::wait`. -/
+def mainAborts (s : State) : Op → Bool
+  | .send _ _ | .release _ | .post _ | .cadd _ _ | .cpost _ _ => false
+  | .recv c => (s.ch c).queue.isEmpty
+  | .acquire k => (s.sm k).count = 0
+  | .cwait k => !((s.cd k).tok.isSome || (s.cd k).conds.isEmpty)
+  | _ => true
+
+theorem C18_main_call_aborts_iff (s : State) (op : Op) :
+    (mainCall s op).aborted = (s.aborted || mainAborts s op) := by
+  cases op <;> simp only [mainCall, mainAborts] <;> repeat' split
+  all_goals first
+    | (simp_all; done)
+    | (cases ht : (s.cd _).tok <;> simp_all)
+
+/-- a call from the main context that does not abort is logged once and leaves every routine's script alone -/
+theorem C18_main_call_logged (s : State) (op : Op) (h : (mainCall s op).aborted = false) :
+    ∃ X res, mainCall s op = logMain X op res ∧ X.log = s.log := by
+  rw [C18_main_call_aborts_iff] at h
+  cases op <;> simp only [mainCall, mainAborts, Bool.or_eq_false_iff] at h ⊢ <;> repeat' split
+  all_goals first
+    | (refine ⟨_, _, rfl, ?_⟩; simp; done)
+    | simp_all
+
+/-- **abort is final**: once the process has aborted nothing happens any more -/
+theorem C18_abort_final (s : State) (ops : List MainOp) (h : s.aborted = true) : run s ops = s := by
+  induction ops with
+  | nil => rfl
+  | cons op ops ih => simp [run, step, h, ih]
+
+/-- the reachable-state theorems above quantify over main-context calls as well: a `send` made by the
+main context (an event callback) while two routines wait wakes both, FIFO holds across contexts -/
+example : (run init [.define false [.recv 0], .new 0 true, .new 0 true, .pass, .call (.send 0 5), .call (.send 0 6), .pass]).log.map
+    (fun e => (e.r, e.res)) = [(mainR, .ok), (0, .val 5), (mainR, .ok), (1, .val 6)] := by decide
+/-- `>>` on an empty channel, `lock`, `yield` from the main context abort; `>>` on a non-empty channel does not -/
+example : (run init [.call (.recv 0)]).aborted = true ∧ (run init [.call (.lock 0)]).aborted = true ∧
+    (run init [.call .yield]).aborted = true ∧ (run init [.call (.send 0 1), .call (.recv 0)]).aborted = false := by decide
+/-- an exception leaving a routine body: the trace ends there (`abortAt`), the joiner never gets an answer -/
+example : let s := run init [.define false [.yield, .throw, .send 0 1], .define false [.join 0], .new 0 true, .new 1 true, .pass, .pass, .pass]
+    s.aborted = true ∧ s.abortAt = 1 := by decide
+/-- OBSERVATION: a routine that returns while holding a mutex leaves it held for ever (`hold_token_` names a dead
+routine; nothing resets it): later lockers stay suspended — on a mutex that is NOT free, so the statement is not
+violated; `Mutex::Locker` is the documented remedy. -/
+example : let s := run init [.define false [.lock 0], .define false [.lock 0], .new 0 true, .new 1 true, .pass, .pass, .pass]
+    (s.R 0).state = .dead ∧ (s.mx 0).hold = some 0 ∧ susp s 1 (.lock 0) ∧ s.readyq = [] := by decide
+/-- join on self: suspended until somebody resumes it by hand; then it returns success -/
+example : let s := run init [.define false [.join 0], .new 0 true, .pass, .pass]
+    susp s 0 (.join 0) ∧ ((run s [.resume 0]).R 0).state = .dead := by decide
 
 end Tbox.C18
